@@ -19,6 +19,7 @@ RULE = (
     "gradient and hessian at independently mapped quadrature positions, high-order re-integration of gradient products. "
     "Non-trivial: >= 2 cells and (distorted or curved or rotated by a non-right angle or translated by >= 1), "
     "polynomial of exact degree k with all coefficients |c| >= 0.1."
+    ' A third of the polynomial cases also compares every array of float64 / float32 / in-place astype() copies with the cast of its own original (hessian arrays included).'
 )
 ASSUMPTIONS = [
     "curved tetra10 / 3-D Lagrange order 3 cells are generated straight for the volume sum (their default rules do not integrate det J of a curved cell exactly)",
